@@ -347,6 +347,12 @@ def run_unfinished(ctx, spec):
         ("control", "allowed",
          ["module M\n[allow(MalformedDocComment)] struct T {\n/// {@link\na: int32 }\nstruct U { b: }\n"]),
         ("control", "warning", ["module M\nstruct T {\n/// {@link\na: int32\nb: }\n"]),
+        # a *different* element named like the member, in an enclosing scope (same file before the error; another file; the
+        # module itself; two levels out), carries the allow attribute: it is unrelated, the lint stays a warning
+        ("sibling", "warning", ["module M\n[allow(MalformedDocComment)] struct f { a: int32 }\nstruct S {\n/// {@link }\nf: int32\ng int32\n}\n"]),
+        ("sibling", "warning", ["module M\n[allow(All)] custom op\n", "module M\ninterface I {\n/// {@link\nop()\nop2( }\n"]),
+        ("sibling", "warning", ["[allow(All)] module A::B\nenum E {\n/// {@link\nB,\nC = }\n"]),
+        ("sibling", "warning", ["module A\n[allow(MalformedDocComment)] typealias x = int32\n", "module A::B::C\nenum E {\nV(\n/// {@link\nx: int32,\ny: ) }\n"]),
     ]
     resps = ctx.worker.batch([{"op": "compile", "files": w[2], "want": ["diags"]} for w in witnesses])
     for (sig, want, texts), r in zip(witnesses, resps):
@@ -366,7 +372,7 @@ def run_unfinished(ctx, spec):
         if lints[0]["level"] != want:
             what = ("a suppression on the member / its enclosing definition is ignored" if want == "allowed"
                     else "an allow attribute on a different element of the same scoped name, in another file, silences it")
-            ctx.violate(sig if sig != "control" else "unfinished-container-control", "MalformedDocComment about a member of a definition that a syntax "
+            ctx.violate(sig if sig not in ("control", "sibling") else "unfinished-container-" + sig, "MalformedDocComment about a member of a definition that a syntax "
                         "error leaves unfinished has level %s, expected %s: %s" % (lints[0]["level"], want, what), replay)
 
 
